@@ -133,7 +133,7 @@ def check(run, replay=None):
         names = [c for c in cases if c["kind"] == "name" and c["target"] == "server" and c["mode"] == "minimal"]
         other_names = rnd.sample([c for c in cases if c["kind"] == "name" and c not in names], 24)
         docs = [c for c in cases if c["kind"] == "doc"]
-        keep_docs = [c for c in docs if c["mode"] == "minimal" and not c["opts"] and c["doc"] != "models"]
+        keep_docs = [c for c in docs if c["mode"] == "minimal" and not c["opts"]]      # incl. the models document (generate model)
         keep_docs += rnd.sample([c for c in docs if c not in keep_docs and c["doc"] not in ("models",)], 16)
         pairs = [c for c in cases if c["kind"] == "pair" and c["target"] in ("server", "model")]
         cases = names + other_names + keep_docs + pairs
